@@ -131,3 +131,18 @@ Qed.
 Print Assumptions parse_num_dec.
 Eval vm_compute in map (fun x => parse_num (list_ascii_of_string x))
   ["0"; "010"; "0x10"; "0X1f"; "0b101"; "0o17"; "1_000"; "_1"; "1_"; "0x_1"; "0_1"; "4294967296"; "-1"; "-2147483648"; "-2147483649"; "99999999999999999999x"; "0x"; "+5"; ""; "12a"]%string.
+
+(* ---------- strconv.ParseInt (sign, ParseUint on the rest, cutoff at 2^(bits-1)) ---------- *)
+Inductive zres := ZOk (z : Z) | ZErr (e : numerr).
+Definition parse_int (s : str) (base bits : N) : zres :=
+  match s with
+  | [] => ZErr ErrSyntax
+  | c :: r =>
+      let '(neg, body) := if code c =? 43 then (false, r) else if code c =? 45 then (true, r) else (false, s) in
+      match parse_uint body base bits with
+      | PErr e => ZErr e
+      | POk n => if negb neg && (2 ^ (bits - 1) <=? n) then ZErr ErrRange
+                 else if neg && (2 ^ (bits - 1) <? n) then ZErr ErrRange
+                 else ZOk (if neg then - Z.of_N n else Z.of_N n)%Z
+      end
+  end.
